@@ -225,6 +225,13 @@ func InstallSink(r *Recorder, onEvent func(ev string, kv []any)) {
 		if !r.Wants(ev) {
 			return
 		}
+		if ev == "h.phase" && r.want != nil && (r.want["no-gen-phase"] || r.want["no-shrink-phase"]) {
+			for i := 0; i+1 < len(kv); i += 2 {
+				if kv[i] == "kind" && ((kv[i+1] == "gen" && r.want["no-gen-phase"]) || ((kv[i+1] == "shrink1" || kv[i+1] == "shrink2") && r.want["no-shrink-phase"])) {
+					return // phases that are not of interest to this check (they would dominate the trace)
+				}
+			}
+		}
 		f := F{}
 		for i := 0; i+1 < len(kv); i += 2 {
 			k := kv[i].(string)
